@@ -16,7 +16,21 @@ STREAMS = {
     },
 }
 
+STREAMS["bundle"] = {"name": "bundle", "corr": "Corr.RunBundle"}
+STREAMS["versions"] = {
+    "name": "versions", "corr": "Corr.RunVersions",
+    "selftest": {"good": "CVlt (mkV 1 0 0 [] []) (mkV 1 0 1 [] []) true", "bad": "CVlt (mkV 1 0 0 [] []) (mkV 1 0 1 [] []) false"},
+}
+
 PROPS = {
+    "C17": {
+        "streams": ["versions", "bundle"],
+        "theorems": "C17_selected_is_newest_allowed, C17_listing_order_irrelevant(_some), C17_exact, C17_complete_above_zero, C17_precedence_order (strict weak order), C17_complete_refuted (0.0.0 witness = known finding KF-C17-1): for all version lists and allowed sets",
+        "assumptions": [
+            "modelled, not verified: github.com/apparentlymart/go-versions LessThan/GreaterThan/Same/Sort/NewestInSet (restated in Bundle/Versions.v, validated by the versions stream); versions.Set.Has enters as a truth table computed by the harness",
+            "the builder-level selection, caching and deprecation capture are in Bundle/Builder.v (find_registry_source), compared with the real builder on scripted worlds (exact call and trace sequences, final registry tables)",
+        ],
+    },
     "C11": {
         "streams": ["resolve"],
         "theorems": "C11_abs_unchanged, C11_same_kind_pkg_version, C11_resolve_is_stack_machine, C11_never_escapes, C11_local_denotation, C11_compose, C11_final_source_addr: for all bases/relative paths of any length (induction over segment lists)",
@@ -27,7 +41,7 @@ PROPS = {
     },
 }
 
-HOOK_COMMITS = []
+HOOK_COMMITS = ["5756dba"]
 
 # Properties not (yet) claimed.  Kept current as checks are added.
 _NYB = "check not built yet in this development (planned, see DESIGN.md §10); not claimed until its model, theorem and correspondence exist"
